@@ -147,6 +147,8 @@ var (
 	c10Conc     bool
 	c10ConcURLs [2][]string
 	c10ConcSlow int // which probe's first exchange is slow
+	c10InFirst  chan struct{} // closed when the slow probe's GET / has arrived
+	c10FastDone chan struct{} // closed when the other probe has completed
 )
 
 // concurrent mode: the probe is identified by a value in its context; probe c10ConcSlow's GET / is slow
@@ -156,10 +158,12 @@ func c10ConcRoundTrip(req *http.Request) (*http.Response, error) {
 	first := len(c10ConcURLs[id]) == 0
 	c10ConcURLs[id] = append(c10ConcURLs[id], req.URL.String())
 	if first && id == c10ConcSlow {
+		// forced hand-shake: this exchange stays in flight until the other probe has run to completion
+		close(c10InFirst)
 		select {
 		case <-ctx.Done():
 			return nil, ctx.Err()
-		case <-time.After(time.Second):
+		case <-c10FastDone:
 		}
 	}
 	text := `{"cluster_name":"c","version":{"number":"7.1"}}`
@@ -410,7 +414,7 @@ func VerifH_C10_elastic() {
 			want += "_aliases"
 		}
 		if i < 2 {
-			verifAssert(c.url == want, "request does not go to the probed address, port and scheme: "+c.url+" want "+want)
+			verifAssert(c.url == want, "request does not go to the probed address, port and scheme")
 		}
 	}
 	verifAssert(len(c10Calls) >= 1 || cancelAt >= 0, "no request was made")
@@ -486,7 +490,7 @@ func VerifH_C10_elasticTwo() {
 
 // VerifH_C10_elasticConc: two probes of different targets by one scanner AT THE SAME TIME (the generic
 // engine shares one scanner between its workers); one of them waits for its GET / while the other runs
-// to completion: every request goes to its own probe's target and each record is its own.
+// to completion (forced by a hand-shake, so the interleaving is the same natively): every request goes to its own probe's target and each record is its own.
 func VerifH_C10_elasticConc() {
 	verifNow()
 	c10Conc = true
@@ -499,17 +503,22 @@ func VerifH_C10_elasticConc() {
 	s := NewScanner("http", WithDataTimeout(5*time.Second))
 	var res [2]scan.Result
 	var errs [2]error
-	done := make(chan int, 2)
-	for id := 0; id < 2; id++ {
-		id := id
-		go func() {
-			ctx := context.WithValue(context.Background(), c10Key{}, id)
-			res[id], errs[id] = s.Scan(ctx, &scan.Request{DstIP: tg[id].ip, DstPort: tg[id].port})
-			done <- id
-		}()
+	c10InFirst, c10FastDone = make(chan struct{}), make(chan struct{})
+	slowDone := make(chan struct{})
+	probe := func(id int) {
+		ctx := context.WithValue(context.Background(), c10Key{}, id)
+		res[id], errs[id] = s.Scan(ctx, &scan.Request{DstIP: tg[id].ip, DstPort: tg[id].port})
 	}
-	<-done
-	<-done
+	go func() { probe(c10ConcSlow); close(slowDone) }()
+	select {
+	case <-c10InFirst: // the slow probe's GET / is in flight now
+	case <-slowDone:
+		verifAssert(false, "probe ended without making its GET / request")
+		return
+	}
+	probe(1 - c10ConcSlow)
+	close(c10FastDone)
+	<-slowDone
 	for id := 0; id < 2; id++ {
 		verifAssert(errs[id] == nil && res[id] != nil, "an endpoint serving a JSON object was not reported")
 		for i, u := range c10ConcURLs[id] {
@@ -517,7 +526,7 @@ func VerifH_C10_elasticConc() {
 			if i == 1 {
 				want += "_aliases"
 			}
-			verifAssert(i > 1 || u == want, "a request of one probe went to another probe's target: "+u+" want "+want)
+			verifAssert(i > 1 || u == want, "a request of one probe went to another probe's target")
 		}
 		if r, ok := res[id].(*ScanResult); ok && r != nil {
 			verifAssert(r.Host == tg[id].host, "record does not carry its own probe's host")
